@@ -7,7 +7,7 @@
     of [Pem.Model]: given that the recursive matcher answers on every call of smaller measure
     ([HrecT]), the algorithm answers; loop progress comes from [Pem.TermProgress]. *)
 From Coq Require Import FMapPositive MSets.MSetPositive Lia.
-From Sq Require Import Base.Bytes Apply.Model Pem.Model Pem.Bounds Pem.NoPanicCert Pem.NoPanic Pem.TermCert Pem.TermProgress.
+From Sq Require Import Base.Bytes Apply.Model Pem.Model Pem.Bounds Pem.FuelMono Pem.NoPanicCert Pem.NoPanic Pem.TermCert Pem.TermProgress.
 
 Local Open Scope N_scope.
 
@@ -1005,4 +1005,96 @@ Section Term.
       - apply nf_bind; [apply tok_nf|]. intros t _. destruct (p_kind t =? k_bracketed g); apply nf_ok.
     Qed.
   End WithRec.
+
+  (* ---------------------------------------------------------------- tying the knot *)
+  (** fuel for a call with [r] tokens left at a node of rank [k], when all ranks are below [W] *)
+  Definition fuel_of (W r k : N) : N := (r + 1) * (W + 2) + k.
+
+  Lemma fuel_lt_r W r r' k k' : r' < r -> k' < W -> fuel_of W r' k' + 1 < fuel_of W r k.
+  Proof.
+    unfold fuel_of. intros Hr Hk.
+    assert (H : (r' + 1) * (W + 2) <= r * (W + 2)) by (apply N.mul_le_mono_r; lia).
+    rewrite (N.mul_add_distr_r r 1 (W + 2)). lia.
+  Qed.
+  Lemma fuel_lt_k W r r' k k' : r' <= r -> k' < k -> fuel_of W r' k' < fuel_of W r k.
+  Proof.
+    unfold fuel_of. intros Hr Hk.
+    assert (H : (r' + 1) * (W + 2) <= (r + 1) * (W + 2)) by (apply N.mul_le_mono_r; lia). lia.
+  Qed.
+  Lemma fuel_ge W r k : 2 * r + 2 <= fuel_of W r k.
+  Proof.
+    unfold fuel_of. assert (H : (r + 1) * 2 <= (r + 1) * (W + 2)) by (apply N.mul_le_mono_l; lia). lia.
+  Qed.
+
+  Theorem match_node_nf fuel : forall n idx len terms,
+    Callable n terms -> idx <= len ->
+    fuel_of (rank_bound g) (len - idx) (rank n) <= N.of_nat fuel ->
+    NF (match_node g toks rx fuel n idx len terms).
+  Proof.
+    induction fuel as [|f IH]; intros n idx len terms Hc Hi Hf.
+    - pose proof (fuel_ge (rank_bound g) (len - idx) (rank n)). cbn in Hf. lia.
+    - cbn [match_node].
+      pose proof (fuel_ge (rank_bound g) (len - idx) (rank n)) as Hge.
+      apply match_node_body_nf with (R0 := len - idx) (K0 := rank n); auto.
+      + exact (match_node_bounds g toks rx f).
+      + exact (match_node_adv g toks rx tc Htc f).
+      + intros c i l t Hct Hil Hok. apply IH; auto.
+        pose proof (callable_rank _ _ Hct) as Hrk.
+        destruct Hok as [Hok|[Hok1 Hok2]].
+        * pose proof (fuel_lt_r (rank_bound g) (len - idx) (l - i) (rank n) (rank c) Hok Hrk). lia.
+        * pose proof (fuel_lt_k (rank_bound g) (len - idx) (l - i) (rank n) (rank c) Hok1 Hok2). lia.
+      + lia.
+  Qed.
+
+  (** enough fuel for a span of [r] tokens *)
+  Definition fuel_bound_N (r : N) : N := fuel_of (rank_bound g) r (rank_bound g).
+
+  Theorem parse_root_nf fuel s e :
+    s <= e -> fuel_bound_N (e - s) <= N.of_nat fuel -> NF (parse_root g toks rx fuel s e).
+  Proof.
+    intros Hse Hf. unfold parse_root. destruct (g_root g) as [r|] eqn:Er; [|apply nf_panic].
+    destruct tcert_parts as (_ & _ & Hroot & _).
+    assert (Hc : Callable r []) by (eapply flows_callable; [apply Hroot; exact Er|intros t []]).
+    apply match_node_nf; auto.
+    pose proof (callable_rank _ _ Hc) as Hrk. unfold fuel_bound_N, fuel_of in *. lia.
+  Qed.
 End Term.
+
+(* ------------------------------------------------------------------ the theorems *)
+(** the explicit fuel bound: (tokens + 1) * (number of nodes + 3) + number of nodes + 1 *)
+Definition fuel_bound (g : grammar) (r : N) : nat := N.to_nat (fuel_bound_N g r).
+
+(** With a certificate, whatever the tokens and the regex oracle: the parse of the root grammar over
+    the span [s, e) answers within [fuel_bound g (e - s)]. *)
+Theorem parse_terminates_cert g cx tc rk : term_ok_b g cx tc rk = true ->
+  forall toks rx s e fuel, s <= e -> (fuel_bound g (e - s) <= fuel)%nat ->
+    parse_root g toks rx fuel s e <> RFuel.
+Proof.
+  intros Hc toks rx s e fuel Hse Hf. apply (parse_root_nf g toks rx cx tc rk Hc fuel s e Hse).
+  unfold fuel_bound in Hf. lia.
+Qed.
+
+(** the decidable side condition: the computed certificate is accepted *)
+Theorem parse_terminates_bound g : term_safe_b g = true ->
+  forall toks rx s e fuel, s <= e -> (fuel_bound g (e - s) <= fuel)%nat ->
+    parse_root g toks rx fuel s e <> RFuel.
+Proof. intro H. exact (parse_terminates_cert g _ _ _ H). Qed.
+
+Theorem parse_terminates g : term_safe_b g = true ->
+  forall toks ntoks rx s e, toks_def toks ntoks -> s <= e -> e <= ntoks ->
+    exists fuel, parse_root g toks rx fuel s e <> RFuel.
+Proof.
+  intros H toks ntoks rx s e _ Hse _. exists (fuel_bound g (e - s)).
+  apply parse_terminates_bound; auto.
+Qed.
+
+(** ... and, with fuel monotonicity, the answer at the bound is the engine's answer: every larger
+    fuel gives the same one *)
+Theorem parse_answer_stable g : term_safe_b g = true ->
+  forall toks rx s e fuel, s <= e -> (fuel_bound g (e - s) <= fuel)%nat ->
+    parse_root g toks rx fuel s e = parse_root g toks rx (fuel_bound g (e - s)) s e.
+Proof.
+  intros H toks rx s e fuel Hse Hf.
+  apply (Pem.FuelMono.parse_root_fuel_mono g toks rx (fuel_bound g (e - s)) fuel s e _ Hf eq_refl).
+  apply parse_terminates_bound; auto.
+Qed.
